@@ -30,10 +30,29 @@ def _returns_cell(f, l):
                (s["r"]["o"].get("c") or s["r"]["o"].get("m") or {}).get("l") == l for b in f.blocks for s in b["s"])
 
 
-def unique_above_threshold_loop(ctx, f, is_weight, is_threshold):
-    """`let mut cand = None; for (k, w) in tally { if w < t {continue}; if cand.is_some() {return None}; cand = Some(k) }; cand`
-    i.e. Some(k) iff exactly one entry has w >= t."""
+def _loop_exit(ctx, f, head):
+    """target block of the `None` arm of the switch that follows the Iterator::next call at `head`"""
     T = ctx.T(f)
+    t = f.blocks[head]["t"]
+    nb = t.get("t")
+    if nb is None:
+        return None
+    si = T.switch_info(nb)
+    if si is None:
+        return None
+    for tgt, labs in si[1].items():
+        if "None" in labs:
+            return tgt
+    return None
+
+
+def unique_above_threshold_loop(ctx, f, is_weight, is_threshold):
+    """Some(k) iff exactly one entry has w >= t, written as a loop. Two templates are decided:
+    A) `if w < t {continue}; if cand.is_some() {return None}; cand = Some(k)` ... `cand`
+    B) `if w >= t {n += 1; cand = Some(k)}` ... `if n != 1 {return None}; cand`
+    anything else is `unknown`."""
+    T = ctx.T(f)
+    cfg = ctx.cfg(f)
     cells = {l: v for l, v in _opt_cells(f, T).items() if _returns_cell(f, l)}
     if len(cells) != 1:
         return "unknown", "no single candidate cell (%d)" % len(cells)
@@ -41,8 +60,11 @@ def unique_above_threshold_loop(ctx, f, is_weight, is_threshold):
     head = loop_head(ctx, f, target=somes)
     if head is None:
         return "unknown", "candidate is not assigned inside a loop"
+    exit_bb = _loop_exit(ctx, f, head)
     ret_none = [bi for bi, b in enumerate(f.blocks) for s in b["s"] if s["k"] == "assign" and s["p"]["l"] in Q.ret_locals(f) and s["p"]["l"] != cl and not s["p"].get("pr") and
                 s["r"]["k"] == "agg" and s["r"].get("variant") == "None"]
+    in_loop = [b for b in ret_none if exit_bb is None or not cfg.dominates(exit_bb, b)]
+    after = [b for b in ret_none if b not in in_loop]
 
     def m(a, b):
         if is_weight(a) and is_threshold(b):
@@ -50,16 +72,65 @@ def unique_above_threshold_loop(ctx, f, is_weight, is_threshold):
         if is_weight(b) and is_threshold(a):
             return -1
         return 0
-    W = Walker(ctx, f, [Atom("candidate", "opt", lambda t: t[0] == "var" and t[1] == cl, ["None", "Some"]), Atom("cmp(weight,threshold)", "cmp", m, ["<", "=", ">"])])
-    names, tab = W.table({"set": somes, "ret_none": ret_none}, start=head)
-    exp = {("None", "<"): set(), ("Some", "<"): set(), ("None", "="): {"set"}, ("None", ">"): {"set"}, ("Some", "="): {"ret_none"}, ("Some", ">"): {"ret_none"}}
-    bad = {k: sorted(v) for k, v in tab.items() if v != exp[k]}
-    if not bad:
-        return "ok", "loop keeps the unique entry with weight >= threshold: below the threshold nothing happens, the first qualifying entry is remembered, a second one returns None"
-    # if no comparison was recognised every row reaches everything: that is an unknown shape, not a wrong one
-    if all(v == {"set", "ret_none"} or v == {"set"} for v in tab.values()) and len(set(map(frozenset, tab.values()))) == 1:
+    if in_loop:
+        W = Walker(ctx, f, [Atom("candidate", "opt", lambda t: t[0] == "var" and t[1] == cl, ["None", "Some"]), Atom("cmp(weight,threshold)", "cmp", m, ["<", "=", ">"])])
+        names, tab = W.table({"set": somes, "ret_none": in_loop}, start=head)
+        exp = {("None", "<"): set(), ("Some", "<"): set(), ("None", "="): {"set"}, ("None", ">"): {"set"}, ("Some", "="): {"ret_none"}, ("Some", ">"): {"ret_none"}}
+        bad = {k: sorted(v) for k, v in tab.items() if v != exp[k]}
+        if not bad:
+            return "ok", "loop keeps the unique entry with weight >= threshold: below the threshold nothing happens, the first qualifying entry is remembered, a second one returns None"
+        if len(set(map(frozenset, tab.values()))) == 1:
+            return "unknown", "threshold comparison not recognised in the loop"
+        return "wrong", "per-entry behaviour by (candidate, weight vs threshold) is %s; specified %s" % (bad, {k: sorted(v) for k, v in exp.items() if k in bad})
+    # template B: a counter of qualifying entries
+    counters = {}
+    for bi, b in enumerate(f.blocks):
+        for s in b["s"]:
+            if s["k"] == "assign" and not s["p"].get("pr") and f.locals[s["p"]["l"]].hk in ("uint", "int") or (s["k"] == "assign" and not s["p"].get("pr") and f.locals[s["p"]["l"]].s in ("usize", "u64", "u32", "i32", "u8", "u16")):
+                v = T.rvalue(s["r"])
+                from .c07 import norm_arith
+                v = norm_arith(v)
+                l = s["p"]["l"]
+                if v == ("const", 0):
+                    counters.setdefault(l, {"init": [], "inc": []})["init"].append(bi)
+                elif v[0] == "bin" and v[1] == "Add" and ("const", 1) in (v[2], v[3]) and any(x[0] == "var" and x[1] == l for x in (v[2], v[3])):
+                    counters.setdefault(l, {"init": [], "inc": []})["inc"].append(bi)
+    counters = {l: c for l, c in counters.items() if c["init"] and c["inc"]}
+    if len(counters) != 1 or not after:
+        return "unknown", "neither an early `return None` in the loop nor a counter of qualifying entries"
+    (cn, cc), = counters.items()
+    W = Walker(ctx, f, [Atom("cmp(weight,threshold)", "cmp", m, ["<", "=", ">"])])
+    names, tab = W.table({"set": somes, "inc": cc["inc"]}, start=head)
+    if len(set(map(frozenset, tab.values()))) == 1:
         return "unknown", "threshold comparison not recognised in the loop"
-    return "wrong", "per-entry behaviour by (candidate, weight vs threshold) is %s; specified %s" % (bad, {k: sorted(v) for k, v in exp.items() if k in bad})
+    exp = {("<",): set(), ("=",): {"set", "inc"}, (">",): {"set", "inc"}}
+    bad = {k: sorted(v) for k, v in tab.items() if v != exp[k]}
+    if bad:
+        return "wrong", "per-entry behaviour by (weight vs threshold) is %s; specified: count and remember exactly the entries with weight >= threshold" % bad
+
+    def mk(k):
+        def mc(a, b):
+            if a[0] == "var" and a[1] == cn and b == ("const", k):
+                return 1
+            if b[0] == "var" and b[1] == cn and a == ("const", k):
+                return -1
+            return 0
+        return mc
+    W2 = Walker(ctx, f, [Atom("count vs %d" % k, "cmp", mk(k), ["<", "=", ">"]) for k in (0, 1, 2)])
+    ret_cell = [bi for bi, b in enumerate(f.blocks) for s in b["s"] if s["k"] == "assign" and s["p"]["l"] == 0 and s["r"]["k"] == "use" and (s["r"]["o"].get("c") or s["r"]["o"].get("m") or {}).get("l") == cl]
+    if exit_bb is None:
+        return "unknown", "loop exit not found"
+    scen = {"0": {"count vs 0": "=", "count vs 1": "<", "count vs 2": "<"}, "1": {"count vs 0": ">", "count vs 1": "=", "count vs 2": "<"},
+            "2": {"count vs 0": ">", "count vs 1": ">", "count vs 2": "="}, "3+": {"count vs 0": ">", "count vs 1": ">", "count vs 2": ">"}}
+    res = {}
+    for name, val in scen.items():
+        r = W2.reachable(val, exit_bb)
+        res[name] = set(n for n, bbs in (("none", after), ("cand", ret_cell)) if r & set(bbs))
+    if len(set(map(frozenset, res.values()))) == 1:
+        return "unknown", "comparison of the counter with a constant not recognised"
+    if res["1"] == {"cand"} and all(res[k] == {"none"} for k in ("0", "2", "3+")):
+        return "ok", "loop counts and remembers the entries with weight >= threshold; the remembered entry is returned iff the count is exactly 1"
+    return "wrong", "result by number of qualifying entries: %s; specified: the entry iff exactly one" % {k: sorted(v) for k, v in res.items()}
 
 
 def max_by_loop(ctx, f, is_cur_key, is_new_key):
